@@ -608,6 +608,9 @@ def _incremental_bijection(ctx, fi: FuncInfo, call: ast.Call):
         return None, "values come from several pools"
     pool = pools.pop()
     pdef = single_def(fn, pool)
+    while isinstance(pdef, ast.Call) and ((isinstance(pdef.func, ast.Name) and pdef.func.id in ("dict", "OrderedDict") and pdef.args) or
+                                          (isinstance(pdef.func, ast.Attribute) and pdef.func.attr == "copy" and isinstance(pdef.func.value, ast.Call))):
+        pdef = pdef.args[0] if isinstance(pdef.func, ast.Name) else pdef.func.value     # a shallow copy still shares the label pools
     if not isinstance(pdef, ast.Call):
         return None, "pool is not built by a helper"
     pcs = ctx.cg.resolve_call(fi, pdef, ctx.cg.local_types(fi), set(params_of(fn)))
